@@ -21,6 +21,9 @@ use tu_verif::run::Run;
 const ALPHA: [&str; 3] = ["a", "b", " "];
 /// requested numbers of merges and the (vocab_size, num_special_tokens) that request them
 const MERGES: [(usize, usize, usize); 6] = [(0, 256, 0), (1, 320, 63), (2, 320, 62), (3, 320, 61), (5, 320, 59), (60, 320, 4)];
+/// normalisation phase: symbols NFKC rewrites (ligature fi -> "fi", fullwidth a -> "a", no-break
+/// space -> space; the last is White_Space, so cleaning removes it first) next to plain ones
+const NORM_ALPHA: [&str; 5] = ["a", "\u{fb01}", "\u{ff41}", "\u{a0}", " "];
 const THREADS: [u8; 4] = [0, 1, 2, 3];
 const RUNS: usize = 2;
 /// the tokenizer built from every trained table is exercised on all strings up to this length
@@ -364,9 +367,15 @@ impl Case {
             }
         }
     }
-    /// the lines training has to count: the first `max_lines` lines of every file
+    /// the lines training has to count: the first `max_lines` lines of every file, as they look
+    /// after the requested normalisation (whitespace is dealt with by the word splitting)
     fn corpus_lines(&self) -> Vec<String> {
-        self.files().iter().flat_map(|f| f.iter().take(self.max_lines.unwrap_or(usize::MAX)).cloned()).collect()
+        let lines = self.files().iter().flat_map(|f| f.iter().take(self.max_lines.unwrap_or(usize::MAX)).cloned()).collect::<Vec<String>>();
+        if self.nfkc {
+            lines.iter().map(|l| nfkc_ref(l)).collect()
+        } else {
+            lines
+        }
     }
     fn requested_merges(&self) -> usize {
         self.vocab_size.saturating_sub(256).saturating_sub(self.num_special_tokens)
@@ -390,6 +399,18 @@ impl Case {
             term: v["line_termination_per_file"].as_array().map(|a| a.iter().map(|t| tu_verif::filesets::term_from_name(t.as_str())).collect()).unwrap_or_default(),
         }
     }
+}
+
+/// NFKC on the symbols of the alphabets of this check, written out by hand
+fn nfkc_ref(s: &str) -> String {
+    s.chars()
+        .map(|c| match c {
+            '\u{fb01}' => "fi".to_string(),
+            '\u{ff41}' => "a".to_string(),
+            '\u{a0}' => " ".to_string(),
+            c => c.to_string(),
+        })
+        .collect()
 }
 
 /// scratch files, the strings the tokenizers are exercised on, and caches (reference knowledge about
@@ -704,6 +725,14 @@ fn main() {
         }
         v
     };
+    // normalisation phase: one-line corpora with symbols that NFKC rewrites; one unit per corpus
+    let norm_lines: Vec<String> = strings(&NORM_ALPHA, run.pick(3, 4)).into_iter().filter(|l| l.chars().any(|c| !c.is_ascii())).collect();
+    if let Some(n) = run.describe_unit() {
+        if n as usize >= corpora.len() + sus.len() + file_lists.len() {
+            println!("{}", json!({"lines": [norm_lines.get(n as usize - corpora.len() - sus.len() - file_lists.len())], "grid": "requested merges {1, 3, 60} x normalization {none, nfkc} x num_threads {1, 2}, each trained twice"}));
+            return;
+        }
+    }
     if let Some(n) = run.describe_unit() {
         if n as usize >= corpora.len() + sus.len() {
             println!("{}", json!({"lines": file_lists.get(n as usize - corpora.len() - sus.len()), "grid": "every cut into files x max_lines_per_file {none, 1} x line termination patterns x requested merges {1, 60} x num_threads {1, 2}, each trained twice"}));
@@ -729,6 +758,7 @@ fn main() {
     }
     run.bounds.insert("corpora".into(), json!(corpora.len()));
     run.bounds.insert("file_phase_line_lists".into(), json!(file_lists.len()));
+    run.bounds.insert("normalization_phase".into(), json!(format!("{} one-line corpora over {NORM_ALPHA:?} with at most {} symbols and at least one non-ASCII symbol x requested merges {{1, 3, 60}} x normalization {{none, nfkc}} x num_threads {{1, 2}}", norm_lines.len(), run.pick(3, 4))));
     run.bounds.insert("file_phase".into(), json!(format!("2 lines of at most {} symbols each, 3 lines of at most 1 symbol each; every cut into files x max_lines_per_file {{none, 1}} x every line-termination pattern (any set of files with an unterminated last line; CRLF) x requested merges {{1, 60}} x num_threads {{1, 2}}", run.pick(2, 3))));
     run.bounds.insert("requested_merges".into(), json!(MERGES.iter().map(|m| json!({"merges": m.0, "vocab_size": m.1, "num_special_tokens": m.2})).collect::<Vec<_>>()));
     run.bounds.insert("normalization".into(), json!(["none", "nfkc"]));
@@ -739,7 +769,7 @@ fn main() {
         "rule".into(),
         json!("every corpus (one file of one line up to the one-line bound, or of two lines up to the two-line bound each, shortlex; quick adds the two-line files with at most 2 + exactly 4 symbols) x requested merges x normalization x num_threads, each trained twice with the real train_bpe (HashMap seeds differ between runs; both tables must satisfy the oracle); a case is non-trivial when at least one merge is requested and the corpus has at least one adjacent pair; evaluations = cases, compared = tables judged"),
     );
-    run.assumptions.push("the corpus words are the whitespace-separated words of each line, the first bare and the others with one leading space (refs::bpe_corpus_words); NFKC is the identity on the alphabet (asserted)".into());
+    run.assumptions.push("the corpus words are the whitespace-separated words of each (normalised) line, the first bare and the others with one leading space (refs::bpe_corpus_words); NFKC is the identity on the main alphabet and the hand-written map on the normalisation alphabet (both asserted against the crate's normalize)".into());
     run.assumptions.push("pair frequency counts every adjacent position (overlapping occurrences as in 'aaa' count twice); any pair of maximal frequency is accepted at every step".into());
     run.bounds.insert("scheduler_units".into(), json!(sus.iter().map(|u| json!({"lines": u.0, "requested_merges": u.1, "workers": u.2, "preemption_bound": u.3})).collect::<Vec<_>>()));
     run.assumptions.push("scheduler part: only the counting workers are controlled, the reducer (calling thread) runs freely and always receives, so the order of messages it sees is the controlled order of sends; sequentially consistent exploration of the instrumented primitives".into());
@@ -754,6 +784,24 @@ fn main() {
         // the same scenario with the reducer (the calling thread) controlled as well: its spawns and
         // receives are scheduling points and the count channel is the real bounded channel
         check_sched(&mut run, &mut ctx, &u.0, u.1, u.2, u.3.min(if u.2 >= 3 { cb - 1 } else { cb }), true, None);
+    }
+    for s in NORM_ALPHA {
+        assert_eq!(text_utils::unicode::normalize(s, Normalization::NFKC, true), nfkc_ref(s));
+    }
+    for (k, line) in norm_lines.iter().enumerate() {
+        if !run.unit((corpora.len() + sus.len() + file_lists.len() + k) as u64) {
+            continue;
+        }
+        if run.out_of_time() {
+            break;
+        }
+        for (_, vocab_size, num_special_tokens) in [MERGES[1], MERGES[3], MERGES[5]] {
+            for nfkc in [false, true] {
+                for num_threads in [1u8, 2] {
+                    check_case(&mut run, &mut ctx, &Case::plain(vec![line.clone()], vocab_size, num_special_tokens, nfkc, num_threads));
+                }
+            }
+        }
     }
     for (k, lines) in file_lists.iter().enumerate() {
         if !run.unit((corpora.len() + sus.len() + k) as u64) {
